@@ -320,15 +320,19 @@ def main(argv):
     # writes
     for n in range(1, 5):
         for op, params in WRITES.items():
-            for form, style in [(f_, s_) for f_ in ("positional", "keyword", "defaults") for s_ in ("sentinel", "falsy", "none", "realistic", "negative")]:
+            for form, style in [(f_, s_) for f_ in ("positional", "keyword", "defaults") for s_ in ("sentinel", "falsy", "none", "realistic", "negative", "large")]:
                 log = []
                 fc = FallbackClient([Cache(i, HIT, log) for i in range(n)])
                 # the values the caller passes: recognisable sentinels; falsy ones (noreply=False, expire=0, an empty value, delay 0 - whatever the
                 # parameter's default is, what was passed is what must arrive); None for everything optional; ordinary ones
                 falsy = {"key": "k", "value": b"", "expire": 0, "noreply": False, "cas": b"0", "delay": 0}
                 realistic = {"key": "user:1", "value": b"payload", "expire": 300, "noreply": False, "cas": b"12", "delay": 5}
-                vals = {p: (("arg", p) if style == "sentinel" else falsy[p] if style == "falsy" else realistic[p] if style in ("realistic", "negative") else
+                # expiry times beyond thirty days (memcached reads those as absolute timestamps - the caller's business, not the wrapper's), long delays
+                large = dict(realistic, expire=[2592001, 86400 * 45, 86400 * 365, 2 ** 31 - 1][n - 1], delay=2592001 * n)
+                vals = {p: (("arg", p) if style == "sentinel" else falsy[p] if style == "falsy" else large[p] if style == "large" else realistic[p] if style in ("realistic", "negative") else
                             (None if p in DEFAULTS else ("arg", p))) for p in params}
+                if style == "large" and not ({"expire", "delay"} & set(params)):
+                    continue
                 if op in ("incr", "decr"):
                     # the second argument of incr / decr is a delta: zero, ordinary, negative and huge ones are all the caller's business (the server judges them)
                     vals["value"] = {"sentinel": ("arg", "value"), "falsy": 0, "none": ("arg", "value"), "realistic": 7, "negative": (-7 if n % 2 else -2 ** 63)}[style]
@@ -415,6 +419,33 @@ def main(argv):
                     if [e[0] for e in log] != [0] or log[0][1] != wop:
                         ctx.violation("after a read that a fallback cache answered, a mutating operation was not applied to exactly the first cache",
                                       {"caches": n, "read": rop, "answered_by_cache": pos, "write": wop, "log": repr(log)[:200]}, tags=["history"])
+    # every mutating operation on a key, then a read of that key on the SAME object while the first cache misses and a fallback holds it: the read
+    # falls through exactly as on a fresh object (the wrapper keeps no memory of what was written or deleted through it)
+    for n in (2, 3, 4):
+        for pos in range(1, n):
+            for wop, params in WRITES.items():
+                for rop in ("get", "gets", "get_many", "gets_many"):
+                    log = []
+                    kinds = [NONE] * n
+                    kinds[pos] = HIT
+                    fc = FallbackClient([Cache(i, k, log) for i, k in enumerate(kinds)])
+                    rec = Hist(ctx, fc, log, {"section": "a mutating operation, then a read a fallback cache has to answer", "write": wop, "read": rop})
+                    hists.append(rec)
+                    vals = {p_: ph(wop, p_) for p_ in params}
+                    if "key" in params:
+                        vals["key"] = "k"
+                    try:
+                        rec.call(wop, **vals)
+                        del log[:]
+                        rec.call(rop, "k" if rop in ("get", "gets") else ["k", "j"])
+                    except Exception as e:
+                        ctx.violation("a call raised in a write-then-read history on healthy caches", {"write": wop, "read": rop, "holder": pos, "error": repr(e)[:80]}, tags=["history"])
+                        continue
+                    ctx.case(("write-then-read", n, pos, wop, rop))
+                    ctx.count("write-then-read-histories")
+                    if [e[0] for e in log] != list(range(pos + 1)):
+                        ctx.violation("after a mutating operation on the same object a read did not consult the caches in order up to the one holding the key",
+                                      {"caches": n, "write": wop, "read": rop, "key_held_by_cache": pos, "consulted": [e[0] for e in log]}, tags=["history"])
     # the list of caches is a public attribute: after it is changed (a new first cache promoted, the first one replaced), reads and writes follow
     # the list as it is NOW - also on an object that has already been used
     for n in (1, 2, 3):
